@@ -6,6 +6,7 @@ import (
 	"go/token"
 	"go/types"
 	"sort"
+	"strings"
 
 	"golang.org/x/tools/go/ssa"
 
@@ -38,6 +39,7 @@ func init() {
 			{ID: "C03.R7", Doc: "HandlePacket handles every Kind constant; unknown kinds are an error only without the control bit", Run: c03r7},
 			{ID: "C03.R8", Doc: "a terminal call that emits a packet holds Stream.write while it makes the (possibly terminating) state change, so the stream cannot finish before the packet is written", Run: c03r8},
 			{ID: "C03.S1", Doc: "terminal calls take the stream's locks in one order", Alias: "C04.W2"},
+			{ID: "C03.R10", Doc: "terminal calls leave the stream in their target state on every way out: terminated after Close/SendError, send side closed (or terminated) after CloseSend", Run: c03r10},
 			{ID: "C03.R9", Doc: "inspectMutex: the held flag is written only while the embedded mutex is held (set after Lock, cleared before Unlock)", Run: c03r9},
 		},
 	})
@@ -910,4 +912,80 @@ func c03r9(c *an.Ctx) {
 		})
 	}
 	c.Floor("held-flag writes in inspectMutex", 1, n)
+}
+
+// c03r10: whatever else a terminal call checks first (an earlier write failure, a fast path), it may return only
+// when the stream is in the state the call stands for: it saw it there already, or it made the transition.
+func c03r10(c *an.Ctx) {
+	sa := streamA(c)
+	n := 0
+	for _, t := range []struct {
+		name string
+		need []string
+	}{
+		{"(*Stream).Close", []string{"term"}},
+		{"(*Stream).SendError", []string{"term"}},
+		{"(*Stream).CloseSend", []string{"send", "term"}},
+	} {
+		fn := c.Fn("drpcstream", t.name)
+		learn := func(st string, cond ssa.Value, val bool) (string, bool) {
+			cnd, neg := an.StripNot(cond)
+			call, ok := cnd.(*ssa.Call)
+			if !ok || !an.IsCallTo(call.Common(), sa.sigIsSet) || val == neg {
+				return st, true
+			}
+			switch recvField(call.Common()) {
+			case sa.term.Origin():
+				return addTag(st, "term"), true
+			case sa.send.Origin():
+				return addTag(st, "send"), true
+			}
+			return st, true
+		}
+		flow := &an.Flow{Fn: fn, Inline: an.InlineSamePackage(fn), Init: []string{""},
+			Step: func(st string, in ssa.Instruction) []string {
+				ci, ok := in.(ssa.CallInstruction)
+				if !ok {
+					return nil
+				}
+				if _, isDefer := in.(*ssa.Defer); isDefer {
+					return nil
+				}
+				cc := ci.Common()
+				if an.IsCallTo(cc, sa.sigSet) {
+					switch recvField(cc) {
+					case sa.term.Origin():
+						return []string{addTag(st, "term")}
+					case sa.send.Origin():
+						return []string{addTag(st, "send")}
+					}
+				}
+				return nil
+			},
+			Branch: func(st string, br *ssa.If, idx int) (string, bool) { return learn(st, br.Cond, idx == 0) },
+			OnFact: learn,
+		}
+		res := flow.Run()
+		if res.Blowup {
+			c.Undecided(t.name + ": state space too large")
+			continue
+		}
+		for _, ret := range an.Returns(fn) {
+			if !res.Reachable(ret.Block()) {
+				continue
+			}
+			for _, st := range res.Before(ret) {
+				n++
+				ok := false
+				for _, tag := range t.need {
+					if hasTag(st, tag) {
+						ok = true
+					}
+				}
+				c.Check(ok, t.name+" | returns only with the stream "+strings.Join(t.need, " or ")+"-closed", c.At(ret), "",
+					"a terminal call can return without having made (or found) its state transition: the stream is never terminated / half-closed, its context is never done and the call is not idempotent")
+			}
+		}
+	}
+	c.Floor("ways out of the terminal calls", 1, n)
 }
